@@ -21,7 +21,7 @@ package httproto
 //@   property C06
 //@   flags libframe
 //@   requires bb != nil
-//@   modifies bb.B, ghost.maxAlloc
+//@   modifies bb.B, ghost.maxAlloc, ghost.consumed
 //@   ensures[line-within-limit] ghost.maxAlloc <= old(ghost.maxAlloc) || ghost.maxAlloc <= socket.messageSizeLimit + 1
 //@   loop 0: invariant[line-within-limit] (ghost.maxAlloc <= old(ghost.maxAlloc) || ghost.maxAlloc <= socket.messageSizeLimit + 1) && len(bb.B) <= socket.messageSizeLimit && len(oneByte) == 1
 
@@ -30,6 +30,6 @@ package httproto
 //@   flags libframe
 //@   ghostset as(m, type(*socket.message)).#headDecoded = result.2 == nil
 //@   requires bb != nil && !h.printMessage
-//@   modifies bb.B, ghost.maxAlloc, as(m, type(*socket.message)).bodyCodec, fields(as(m, type(*socket.message)).meta), allelems(type(utils.argsKV)), as(m, type(*socket.message)).xferPipe.filters, allelems(type(xfer.XferFilter)), as(m, type(*socket.message)).seq, as(m, type(*socket.message)).mtype, ghost.appendFailed, as(m, type(*socket.message)).#headDecoded
+//@   modifies bb.B, ghost.maxAlloc, ghost.consumed, as(m, type(*socket.message)).bodyCodec, fields(as(m, type(*socket.message)).meta), allelems(type(utils.argsKV)), as(m, type(*socket.message)).xferPipe.filters, allelems(type(xfer.XferFilter)), as(m, type(*socket.message)).seq, as(m, type(*socket.message)).mtype, ghost.appendFailed, as(m, type(*socket.message)).#headDecoded
 //@   ensures[body-within-limit] ghost.maxAlloc <= old(ghost.maxAlloc) || ghost.maxAlloc <= socket.messageSizeLimit + 1
 //@   loop 0: invariant[within-limit] ghost.maxAlloc <= old(ghost.maxAlloc) || ghost.maxAlloc <= socket.messageSizeLimit + 1
